@@ -14,6 +14,7 @@ CONSTANTS
   Ckpts = {"soft"}
   Moves = "gen"
   InitAlpha = "ctor"
+  CtorOpts = "all"
   AllowKF = FALSE
   Grads = {TRUE, FALSE}
   SelHows = {"net_only", "nas_only", "net_and_nas"}
